@@ -474,7 +474,7 @@ def word_readers(ctx, rep, P, wrappers):
     cmp_closure = P.reachable_from(sorted(wrappers))
     defined = set(P.defined)
     other = defined - dec         # encoder-only, set-up-only (self-check) and unreachable functions
-    allowed = cmp_closure | other
+    allowed = cmp_closure | other | {r_.fn.name for r_ in P.roles('lazy')}      # (the lazy normaliser front end only tests for non-ASCII and copies: LAZY-1)
     readers = {}
     for f in P.defined.values():
         for i in f.all_insts():
